@@ -30,4 +30,9 @@ def run(ctx, chk):
     chk.rule("C09.payload", "string payload window is source+head .. +length")
     n = DR.per_byte(chk, "C09", prog, eff, {"read", "nedata", "nedata-wrap", "claim", "claim-before-read", "action", "payload"})
     chk.floor("C09.read", "per-byte obligations", n, 900)
+    chk.rule("C09.stateless", "the decoder is a function of its arguments: nothing reachable from cbor_stream_decode writes an object with static storage "
+             "(no memo of the previous call, no flag that survives it) - the answer for a buffer does not depend on what was decoded before "
+             "(transitive write sets from the effects engine; shared with C17.no-global-write)")
+    import rules as _rst
+    _rst.check_stateless(chk, "C09.stateless", prog, eff, ('cbor_stream_decode',))
     chk.exhaustive = True
